@@ -33,7 +33,7 @@ macro_rules! per_set {
         for si in 0..N_SEEDS {
             let xi = rng.arr32();
             let (pk, sk) = S::KG::keygen_from_seed(&xi);
-            let (rpk, rsk) = refimpl::keygen_internal(&p, &xi);
+            let (rpk, rsk) = if $what == "derive" { (Vec::new(), Vec::new()) } else { refimpl::keygen_internal(&p, &xi) };
             let pkb = pk.clone().into_bytes(); let skb = sk.clone().into_bytes();
             if $what == "keygen" || $what == "all" {
                 if pkb.to_vec() != rpk { std::println!("DIFF {} keygen pk differs from FIPS 204 KeyGen_internal, xi={:02x?}", stringify!($set), xi); $bad += 1; }
@@ -47,13 +47,16 @@ macro_rules! per_set {
                 let sk_rt = S::PrivateKey::try_from_bytes(skb).unwrap();
                 let dpk2 = sk_rt.get_public_key();
                 if dpk2.clone().into_bytes() != pkb { std::println!("DIFF {} pk derived from the round-tripped sk differs, xi={:02x?}", stringify!($set), xi); $bad += 1; }
-                let msg = rng.bytes(5); let rnd = rng.arr32();
-                let sig = sk.try_sign_with_rng(&mut ReplayRng(rnd, 0), &msg, b"c").unwrap();
-                let mut sig_bad = sig; sig_bad[7] ^= 4;
-                for (nm, key) in [("derived", &dpk), ("derived-from-roundtrip", &dpk2)] {
-                    if !key.verify(&msg, &sig, b"c") { std::println!("DIFF {} {} pk rejects a valid signature, xi={:02x?}", stringify!($set), nm, xi); $bad += 1; }
-                    if key.verify(&msg, &sig_bad, b"c") { std::println!("DIFF {} {} pk accepts an invalid signature", stringify!($set), nm); $bad += 1; }
+                if si < 4 || $bad > 0 {
+                    let msg = rng.bytes(5); let rnd = rng.arr32();
+                    let sig = sk.try_sign_with_rng(&mut ReplayRng(rnd, 0), &msg, b"c").unwrap();
+                    let mut sig_bad = sig; sig_bad[7] ^= 4;
+                    for (nm, key) in [("derived", &dpk), ("derived-from-roundtrip", &dpk2)] {
+                        if !key.verify(&msg, &sig, b"c") { std::println!("DIFF {} {} pk rejects a valid signature, xi={:02x?}", stringify!($set), nm, xi); $bad += 1; }
+                        if key.verify(&msg, &sig_bad, b"c") { std::println!("DIFF {} {} pk accepts an invalid signature", stringify!($set), nm); $bad += 1; }
+                    }
                 }
+                if $bad > 8 { break; }
             }
             if $what == "sign" || $what == "verify" || $what == "all" {
                 let sk_rt = S::PrivateKey::try_from_bytes(skb).unwrap();
